@@ -9,9 +9,18 @@ list of items, an item = class key + label + attribute values.  Modelled, as the
                                                  `if not value: continue`)
 * `get_item_model_issues`        → `attrItemIssues`  (`label not in getattr(model, name)`)
 * `get_item_parameter_issues`    → `attrParamIssues`
-* `get_item_validator_issues`    → `attrValidatorIssues` (`get_megacomplex_issues`, the
-                                    length validators of damped-oscillation / pfid, abstract
-                                    custom validators `cv`)
+* `get_item_validator_issues`    → `attrValidatorIssues`: the function attached to an attribute with
+                                    `validator=` is looked up by name in a table of validator
+                                    predicates (`VTable`, regenerated from the source of the live
+                                    validator functions into `Generated/C20Validators.lean`) and the
+                                    predicate is INTERPRETED (`interpPred`): exclusive / unique rules over
+                                    the resolved megacomplexes, equal list lengths, labels defined in a
+                                    collection; only predicates the translator could not express stay
+                                    abstract (`opaque`, family `cv`)
+* the traversal                  → `walkItem` / `rowAgrees` / `walkerCovers`: the positions the model
+                                    visits on a probe item of a class, compared by theorem with the
+                                    positions the live walkers visited on the same probe
+                                    (`Generated/C20Walker.lean`)
 * `Model.get_issues`             → `getIssues`  (all items of all collections)
 * `get_parameter_labels` / `generate_parameters` → `parameterLabels` / `generateParameters`
 * `fill_item`                    → `fillItem`   (fuel = Python's recursion depth)
@@ -38,12 +47,62 @@ inductive Kind where
   | plain
   deriving Repr, DecidableEq, Inhabited
 
+/-- what `attribute(validator=…)` attaches: nothing, or a function (its qualified name; what it
+    checks is an entry of the validator table) -/
 inductive Validator where
   | none
-  | megacomplexes                       -- validate_megacomplexes / validate_global_megacomplexes
-  | sameLength (attrs : List String)    -- validate_oscillation_parameter / validate_pfid_parameter
-  | custom (name : String)              -- anything else: abstract
+  | named (name : String)
   deriving Repr, DecidableEq, Inhabited
+
+/-! ### the validator predicate language -/
+
+/-- class flags of a megacomplex: `is_exclusive` / `is_unique`; also names the issue class
+    (`ExclusiveMegacomplexIssue` / `UniqueMegacomplexIssue`) -/
+inductive Flag where
+  | exclusive | unique
+  deriving Repr, DecidableEq, Inhabited
+
+/-- what is counted: `len(megacomplexes)` / `len([m for m in megacomplexes if m.__class__ is type])` -/
+inductive Count where
+  | all | sameClass
+  deriving Repr, DecidableEq, Inhabited
+
+/-- `if <flag>(type) and <count> > <bound>: issues.append(<issue>(mc.label, mc.type, …))` -/
+structure McRule where
+  flag : Flag
+  count : Count
+  bound : Nat
+  issue : Flag
+  deriving Repr, DecidableEq, Inhabited
+
+inductive VPred where
+  /-- `get_megacomplex_issues`: the labels of the validated attribute are resolved in collection
+      `coll` (`noneGuard`: `if value is not None`; `skipUndefined`: undefined labels are skipped
+      instead of raising `KeyError`), then every resolved item is tested against the rules -/
+  | resolved (coll : String) (noneGuard skipUndefined : Bool) (rules : List McRule)
+  /-- `len({len(item.a) for a in attrs}) > 1` is an issue -/
+  | lengthsEqual (attrs : List String)
+  /-- every label stored in the validated attribute (a string or a list of strings) must be a label of
+      collection `coll`; an undefined one is reported as `ModelItemIssue(reportAs, label)` -/
+  | definedIn (coll reportAs : String)
+  /-- a validator the translator cannot express: abstract, by name -/
+  | opaque (name : String)
+  /-- the translator failed on the source (no theorem about the generated table closes) -/
+  | untranslatable (reason : String)
+  deriving Repr, DecidableEq, Inhabited
+
+/-- validator function name → what it checks -/
+abbrev VTable := List (String × VPred)
+
+def predOf (vt : VTable) (name : String) : VPred :=
+  match vt.find? (fun p => p.1 = name) with
+  | some p => p.2
+  | none => .opaque name
+
+def VPred.translated : VPred → Bool
+  | .opaque _ => false
+  | .untranslatable _ => false
+  | _ => true
 
 structure AttrSpec where
   name : String
@@ -171,25 +230,36 @@ def attrParamIssues (ps : List String) (it : Item) (a : AttrSpec) : Except Err (
     | .ok ls => .ok ((ls.filter (fun x => !ps.contains x)).map Issue.missingParam)
   | _ => .ok []
 
-/-- the loop of `get_megacomplex_issues` over the looked-up megacomplexes -/
-def megacomplexIssues (sch : Schema) (mcs : List Item) : List Issue :=
-  mcs.flatMap fun mc =>
-    let s := specOf sch mc.spec
-    (if s.exclusive && decide (mcs.length > 1) then [Issue.exclusive mc.label mc.spec] else []) ++
-    (if s.unique && decide ((mcs.filter (fun x => x.spec = mc.spec)).length > 1)
-      then [Issue.unique mc.label mc.spec] else [])
+/-- the flag of the class of a megacomplex -/
+def flagOf (sch : Schema) (f : Flag) (mc : Item) : Bool :=
+  match f with
+  | .exclusive => (specOf sch mc.spec).exclusive
+  | .unique => (specOf sch mc.spec).unique
 
-/-- `get_megacomplex_issues` (after fix D11: labels that are not defined are skipped here —
-    `get_item_model_issues` reports them — instead of raising `KeyError`) -/
-def megacomplexValidator (sch : Schema) (m : Model) (it : Item) (a : AttrSpec) :
-    Except Err (List Issue) :=
-  match it.valOf a.name with
-  | .none => .ok []
-  | .list ls =>
-    match findColl m "megacomplex" with
-    | none => .error (.attributeError "megacomplex")
-    | some c => .ok (megacomplexIssues sch (ls.filterMap c.findItem))
-  | _ => .error (.shape it.label a.name)
+def countOf (mcs : List Item) (mc : Item) : Count → Nat
+  | .all => mcs.length
+  | .sameClass => (mcs.filter (fun x => x.spec = mc.spec)).length
+
+def ruleFires (sch : Schema) (mcs : List Item) (mc : Item) (r : McRule) : Bool :=
+  flagOf sch r.flag mc && decide (countOf mcs mc r.count > r.bound)
+
+def mkIssue (mc : Item) : Flag → Issue
+  | .exclusive => .exclusive mc.label mc.spec
+  | .unique => .unique mc.label mc.spec
+
+/-- the loop of `get_megacomplex_issues` over the looked-up megacomplexes: for every megacomplex,
+    the rules in source order -/
+def ruleIssues (sch : Schema) (rules : List McRule) (mcs : List Item) : List Issue :=
+  mcs.flatMap fun mc => (rules.filter (ruleFires sch mcs mc)).map (fun r => mkIssue mc r.issue)
+
+/-- `[model.x[label] for label in labels if label in model.x]` (skipUndefined, the code after fix
+    D11) or `[model.x[label] for label in labels]` (raises `KeyError`) -/
+def resolveLabels (c : Coll) (coll : String) (skip : Bool) (ls : List String) :
+    Except Err (List Item) :=
+  if skip then .ok (ls.filterMap c.findItem)
+  else collectM (fun l => match c.findItem l with
+    | some t => .ok [t]
+    | none => .error (.keyError coll l)) ls
 
 /-- `len(item.<attr>)` -/
 def lenOf (it : Item) (attr : String) : Except Err (List Nat) :=
@@ -202,29 +272,61 @@ def allSame : List Nat → Bool
   | [] => true
   | n :: ns => ns.all (fun k => k = n)
 
-/-- abstract custom validators: validator name → item → what it complains about -/
+/-- the labels a `definedIn` validator looks at: the string itself or the elements of the list
+    (no `if not value` here: the empty string is looked up like any other) -/
+def plainLabels (it : Item) (attr : String) : Except Err (List String) :=
+  match it.valOf attr with
+  | .scalar l => .ok [l]
+  | .list ls => .ok ls
+  | _ => .error (.shape it.label attr)
+
+/-- abstract validators (what the translator could not express): name → item → complaints -/
 abbrev CustomValidators := String → Item → List String
 
-/-- `get_item_validator_issues`, one attribute -/
-def attrValidatorIssues (cv : CustomValidators) (sch : Schema) (m : Model) (it : Item)
-    (a : AttrSpec) : Except Err (List Issue) :=
-  match a.validator with
-  | .none => .ok []
-  | .megacomplexes => megacomplexValidator sch m it a
-  | .sameLength attrs =>
+/-- the interpreter of the predicate language: what the validator attached to attribute `a` of
+    item `it` returns -/
+def interpPred (cv : CustomValidators) (sch : Schema) (m : Model) (it : Item) (a : AttrSpec) :
+    VPred → Except Err (List Issue)
+  | .resolved coll noneGuard skip rules =>
+    match it.valOf a.name with
+    | .none => if noneGuard then .ok [] else .error (.shape it.label a.name)
+    | .list ls =>
+      match findColl m coll with
+      | none => .error (.attributeError coll)
+      | some c =>
+        match resolveLabels c coll skip ls with
+        | .error e => .error e
+        | .ok mcs => .ok (ruleIssues sch rules mcs)
+    | _ => .error (.shape it.label a.name)
+  | .lengthsEqual attrs =>
     match collectM (lenOf it) attrs with
     | .error e => .error e
     | .ok lens => .ok (if allSame lens then [] else [Issue.lengths it.label lens])
-  | .custom name => .ok ((cv name it).map (Issue.custom name))
+  | .definedIn coll reportAs =>
+    match plainLabels it a.name with
+    | .error e => .error e
+    | .ok ls =>
+      match findColl m coll with
+      | none => .error (.attributeError coll)
+      | some c => .ok ((ls.filter (fun x => !c.hasLabel x)).map (Issue.missingItem reportAs))
+  | .opaque name => .ok ((cv name it).map (Issue.custom name))
+  | .untranslatable reason => .ok ((cv reason it).map (Issue.custom reason))
+
+/-- `get_item_validator_issues`, one attribute -/
+def attrValidatorIssues (cv : CustomValidators) (vt : VTable) (sch : Schema) (m : Model) (it : Item)
+    (a : AttrSpec) : Except Err (List Issue) :=
+  match a.validator with
+  | .none => .ok []
+  | .named n => interpPred cv sch m it a (predOf vt n)
 
 /-- `get_item_issues` -/
-def itemIssues (cv : CustomValidators) (sch : Schema) (m : Model) (ps : Option (List String))
-    (it : Item) : Except Err (List Issue) :=
+def itemIssues (cv : CustomValidators) (vt : VTable) (sch : Schema) (m : Model)
+    (ps : Option (List String)) (it : Item) : Except Err (List Issue) :=
   let attrs := (specOf sch it.spec).attrs
   match collectM (attrItemIssues m it) attrs with
   | .error e => .error e
   | .ok i1 =>
-    match collectM (attrValidatorIssues cv sch m it) attrs with
+    match collectM (attrValidatorIssues cv vt sch m it) attrs with
     | .error e => .error e
     | .ok i2 =>
       match ps with
@@ -235,9 +337,9 @@ def itemIssues (cv : CustomValidators) (sch : Schema) (m : Model) (ps : Option (
         | .ok i3 => .ok (i1 ++ i2 ++ i3)
 
 /-- `Model.get_issues(parameters=ps)` -/
-def getIssues (cv : CustomValidators) (sch : Schema) (m : Model) (ps : Option (List String)) :
-    Except Err (List Issue) :=
-  collectM (itemIssues cv sch m ps) (allItems m)
+def getIssues (cv : CustomValidators) (vt : VTable) (sch : Schema) (m : Model)
+    (ps : Option (List String)) : Except Err (List Issue) :=
+  collectM (itemIssues cv vt sch m ps) (allItems m)
 
 /-! ### parameter labels -/
 
@@ -306,6 +408,101 @@ def fillItem (sch : Schema) (m : Model) (ps : List String) : Nat → Item → Ex
       | .error e => .error e
       | .ok params => .ok (.node it.spec it.label children params)
 
+/-! ### the traversal, made explicit
+
+`attrItemIssues` / `attrParamIssues` / `fillAttr` / `fillParams` / `attrParamLabels` all visit the
+positions `Item.labels` yields for the attributes of the right kind.  `walkItem` lists these
+positions as the live walkers name them — `(collection, label)` for model items (the alias if the
+attribute has one), `(attribute, label)` for parameters — so that they can be compared with what
+`iterate_names_and_labels` and `fill_item_attributes` visit on probe items
+(`Generated/C20Walker.lean`). -/
+
+def attrWalk (wantItems : Bool) (it : Item) (a : AttrSpec) : Except Err (List (String × String)) :=
+  match a.kind with
+  | .item c =>
+    if wantItems then
+      match it.labels a with
+      | .error e => .error e
+      | .ok ls => .ok (ls.map (fun l => (c, l)))
+    else .ok []
+  | .param =>
+    if wantItems then .ok []
+    else
+      match it.labels a with
+      | .error e => .error e
+      | .ok ls => .ok (ls.map (fun l => (a.name, l)))
+  | .plain => .ok []
+
+def walkItem (sch : Schema) (wantItems : Bool) (it : Item) : Except Err (List (String × String)) :=
+  collectM (attrWalk wantItems it) (specOf sch it.spec).attrs
+
+/-- one probe of the live walkers: the values fed to an instance of class `key`, and the
+    `(name, label)` pairs visited by `iterate_model_item_names_and_labels`,
+    `iterate_parameter_names_and_labels` and by `fill_item_attributes` over the model / parameter
+    attributes -/
+structure WalkRow where
+  key : String
+  kind : String
+  vals : List (String × Val)
+  items : List (String × String)
+  params : List (String × String)
+  fillItems : List (String × String)
+  fillParams : List (String × String)
+  deriving Repr, DecidableEq, Inhabited
+
+/-- the model walker visits exactly what the live walkers visited on this probe -/
+def rowAgrees (sch : Schema) (r : WalkRow) : Bool :=
+  let it : Item := ⟨r.key, "probe", r.vals⟩
+  (match walkItem sch true it with
+    | .ok ps => decide (ps = r.items) && decide (ps = r.fillItems)
+    | .error _ => false) &&
+  (match walkItem sch false it with
+    | .ok ps => decide (ps = r.params) && decide (ps = r.fillParams)
+    | .error _ => false)
+
+def valLabels : Val → List String
+  | .none => []
+  | .scalar l => [l]
+  | .list ls => ls
+  | .dict kvs => kvs.map (·.2)
+
+/-- a probe value of the given kind for an attribute: `full` = the declared container with at
+    least two entries (one for a scalar) and non-empty labels, `empty` = `""` / `[]` / `{}`,
+    `none` = `None` -/
+def probeOK (a : AttrSpec) (kind : String) (v : Val) : Bool :=
+  if kind = "none" then (match v with | .none => true | _ => false)
+  else if kind = "empty" then
+    (match a.struct, v with
+      | .scalar, .scalar l => l = ""
+      | .list, .list ls => ls.isEmpty
+      | .dict, .dict kvs => kvs.isEmpty
+      | _, _ => false)
+  else if kind = "full" then
+    (match a.struct, v with
+      | .scalar, .scalar l => l ≠ ""
+      | .list, .list ls => decide (ls.length ≥ 2) && ls.all (· ≠ "")
+      | .dict, .dict kvs => decide (kvs.length ≥ 2) && kvs.all (·.2 ≠ "")
+      | _, _ => false)
+  else false
+
+def allDistinct : List String → Bool
+  | [] => true
+  | x :: xs => !xs.contains x && allDistinct xs
+
+def rowCovers (s : ItemSpec) (kind : String) (r : WalkRow) : Bool :=
+  r.key = s.key && r.kind = kind &&
+  (s.attrs.all fun a =>
+    match a.kind with
+    | .plain => true
+    | _ => (match r.vals.find? (fun p => p.1 = a.name) with
+        | some p => probeOK a kind p.2
+        | none => false)) &&
+  allDistinct ((r.vals.flatMap (fun p => valLabels p.2)).filter (· ≠ ""))
+
+/-- every class of the schema was probed with every reference attribute full, empty and `None` -/
+def walkerCovers (sch : Schema) (rows : List WalkRow) : Bool :=
+  sch.all fun s => ["full", "empty", "none"].all fun k => rows.any (rowCovers s k)
+
 /-! ### driver -/
 open Glotaran.Proto
 
@@ -333,8 +530,19 @@ def showStruct : Struct → String
 def showKind : Kind → String
   | .item c => s!"item:{encodeStr c}" | .param => "param" | .plain => "plain"
 def showValidator : Validator → String
-  | .none => "none" | .megacomplexes => "megacomplexes"
-  | .sameLength as => s!"samelength:{showStrs as}" | .custom n => s!"custom:{encodeStr n}"
+  | .none => "none" | .named n => s!"named:{encodeStr n}"
+def showFlag : Flag → String
+  | .exclusive => "exclusive" | .unique => "unique"
+def showCount : Count → String
+  | .all => "all" | .sameClass => "sameclass"
+def showRule (r : McRule) : String :=
+  s!"[{showFlag r.flag},{showCount r.count},{r.bound},{showFlag r.issue}]"
+def showPred : VPred → String
+  | .resolved c g k rs => s!"[resolved,{encodeStr c},{showBool g},{showBool k},{showList (rs.map showRule)}]"
+  | .lengthsEqual as => s!"[lengthsequal,{showStrs as}]"
+  | .definedIn c r => s!"[definedin,{encodeStr c},{encodeStr r}]"
+  | .opaque n => s!"[opaque,{encodeStr n}]"
+  | .untranslatable r => s!"[untranslatable,{encodeStr r}]"
 def showAttr (a : AttrSpec) : String :=
   s!"[{encodeStr a.name},{showStruct a.struct},{showBool a.optional},{showKind a.kind},{showValidator a.validator}]"
 def showSpec (s : ItemSpec) : String :=
@@ -370,11 +578,15 @@ def parsePs (t : Tree) : Option (Option (List String)) := t.optOf? Tree.strs?
 
 def noCustom : CustomValidators := fun _ _ => []
 
-/-- protocol: `schema` prints the table; `model <tree>` sets the current model;
+/-- the driver over a schema and a validator table (`driverStep` in GlotaranModel/C20Driver.lean
+    instantiates the regenerated validator table).
+    protocol: `schema` / `validators` print the tables; `model <tree>` sets the current model;
     `issues <ps|none>`, `params`, `fill <ps> <coll> <label> <fuel>` query it. -/
-def driverStep (sch : Schema) (st : Option Model) (ts : List Tree) : Option Model × String :=
+def driverStepWith (sch : Schema) (vt : VTable) (st : Option Model) (ts : List Tree) :
+    Option Model × String :=
   match ts with
   | [.atom "schema"] => (st, showList (sch.map showSpec))
+  | [.atom "validators"] => (st, showList (vt.map fun p => s!"[{encodeStr p.1},{showPred p.2}]"))
   | [.atom "model", t] =>
     match parseModel sch t with
     | some m => (some m, "model")
@@ -382,7 +594,7 @@ def driverStep (sch : Schema) (st : Option Model) (ts : List Tree) : Option Mode
   | [.atom "issues", p] =>
     match st, parsePs p with
     | some m, some ps =>
-      match getIssues noCustom sch m ps with
+      match getIssues noCustom vt sch m ps with
       | .ok iss => (st, "ok " ++ showList (iss.map showIssue))
       | .error e => (st, showErr e)
     | _, _ => (st, "bad-op")
